@@ -214,6 +214,17 @@ CHECKS["C18"] = dict(
     technique="CrossHair symbolic execution (z3) of the real degree-estimation handlers with symbolic degrees",
     design="§4 C18", engine="E2", note=XH_NOTE)
 
+CHECKS["C19"] = dict(
+    level="proof",
+    text="CrossHair executes the real unique pre/post traversals, the cutoff variant and map_expr_dag (compress "
+         "on/off, MultiFunction handlers with equal-but-distinct results) on DAGs built from a symbolic adjacency list "
+         "(every shape with <= 2 internal nodes, four families with 3; unary/binary/cutoff kinds, arbitrary sharing) and "
+         "confirms over all paths: each distinct node once, operands before users, map == recursive application. "
+         "Dispatch of every registered expression type under ~70 handler-name sets is tabulated from the real "
+         "MultiFunction/Transformer tables and compared by z3 with the nearest-ancestor rule.",
+    technique="CrossHair symbolic execution (z3) over DAG shapes + SMT check of dispatch tables",
+    design="§4 C19", engine="E2", note=XH_NOTE)
+
 NOT_APPLICABLE = {
     "C11": "Signature injectivity is injectivity of string renderings (repr/str, numpy array printing, float "
            "formatting) composed with sha512: CrossHair cannot confirm it, z3/cvc5 string theories answer unknown, "
